@@ -17,7 +17,7 @@ cobaenv.register()
 from coba.pipes import Multiprocessor, ListSink                   # noqa: E402
 from coba.multiprocessing import CobaMultiprocessor               # noqa: E402
 from coba.context import CobaContext, BasicLogger, NullCacher, MemoryCacher   # noqa: E402
-from vf.lib.mpharness import TenTimes, TenTimesGen, InjectedError, EXC_KINDS, FALSY              # noqa: E402
+from vf.lib.mpharness import TenTimes, TenTimesGen, InjectedError, EXC_KINDS, FALSY, aliased              # noqa: E402
 
 
 # the two completion callbacks run on callback threads of the parent and update shared counters (_n_procs, _exceptions):
@@ -29,19 +29,26 @@ def items_of(case):
     if case.get('itemkind') == 'falsy':
         rot = case.get('rot', 0)
         return (FALSY[rot:] + FALSY[:rot])[:case['items']]
-    return list(range(1, case['items'] + 1))
+    off = case.get('offset', 0)
+    return list(range(off + 1, off + case['items'] + 1))
 
 
 def make_body(case):
     wrapper, n, m, nitems, faults, consumer = case['wrapper'], case['n'], case['m'], case['items'], case['faults'], case['consumer']
     items = items_of(case)
+    first = case.get('first')
+    if first: faults = list(faults) + list(first['faults'])
     def body():
         if wrapper == 'coba':
             mp = CobaMultiprocessor(TenTimesGen(faults, case.get('exc', 'custom'), case.get('fan', 'one')), n, m)
         else:
             mp = Multiprocessor(TenTimes(faults, case.get('exc', 'custom'), case.get('fan', 'one')), n, m)
         outs = []
-        g = mp.filter(items)
+        if first:      # the SAME multiprocessor object was used before, on another stream (which may have failed)
+            try: list(mp.filter(list(range(1, first['items'] + 1))))
+            except BaseException as e:      # noqa
+                if isinstance(e, sched.Abort): raise
+        g = mp.filter(aliased(nitems, case.get('offset', 0)) if case.get('itemkind') == 'aliased' else items)
         try:
             if consumer == 'all':
                 for o in g: outs.append(o)
@@ -66,7 +73,7 @@ def before():
 
 def feature(case):
     return (f"{case['wrapper']} n{'=1' if case['n']==1 else '>1'} m{'=0' if case['m']==0 else '>0'} "
-            f"{'falsy-items ' if case.get('itemkind') == 'falsy' else ''}{'stream-longer-than-input-queue ' if case['items'] > 2 * case['n'] and case['items'] > 4 else ''}{'faults' if case['faults'] else 'nofault'}{'' if case.get('exc', 'custom') == 'custom' else ' raising ' + case['exc']}{'' if case.get('fan', 'one') == 'one' else ' outputs-per-item=' + case['fan']} consumer={'all' if case['consumer']=='all' else 'early'}")
+            f"{'second-use-of-the-object ' if case.get('first') else ''}{'stream-reusing-one-buffer ' if case.get('itemkind') == 'aliased' else ''}{'falsy-items ' if case.get('itemkind') == 'falsy' else ''}{'stream-longer-than-input-queue ' if case['items'] > 2 * case['n'] and case['items'] > 4 else ''}{'faults' if case['faults'] else 'nofault'}{'' if case.get('exc', 'custom') == 'custom' else ' raising ' + case['exc']}{'' if case.get('fan', 'one') == 'one' else ' outputs-per-item=' + case['fan']} consumer={'all' if case['consumer']=='all' else 'early'}")
 
 
 def judge(case, ex):
@@ -84,6 +91,7 @@ def judge(case, ex):
         elif fan == 'skip1' and x == 1: pass
         elif fan == 'none1' and x == 1: expected.update(['None'])
         else: expected.update([10 * x])
+    mine = set(items)
     if ex.deadlock: return [('deadlock', 'no task enabled while the caller is still waiting')]
     if ex.livelock: return [('non-termination', 'scheduling-point budget exhausted')]
     kind, val = ex.result
@@ -111,11 +119,11 @@ def judge(case, ex):
         if exc is None and not faults and sum(vals.values()) != want:
             bad.append(('lost-output', f'asked for {want} outputs before closing, got {sorted(vals.elements(), key=str)}'))
     if case['m'] > 0:
-        per = collections.Counter(pid for ev, pid, _ in (e for e in ex.log if e[0] == 'handled'))
+        per = collections.Counter(pid for ev, pid, x in (e for e in ex.log if e[0] == 'handled') if x in mine)
         if per and max(per.values()) > case['m'] and not (case['n'] == 1 and case['m'] == 0):
             bad.append(('maxtasksperchild-exceeded', f'a worker handled {max(per.values())} items, limit {case["m"]}'))
     # items handled twice by workers (duplicated work) even if outputs were de-duplicated
-    handled = collections.Counter(x for ev, _, x in (e for e in ex.log if e[0] == 'handled'))
+    handled = collections.Counter(x for ev, _, x in (e for e in ex.log if e[0] == 'handled') if x in mine)
     if any(c > 1 for c in handled.values()):
         bad.append(('item-processed-twice', f'handled counts {dict(handled)}'))
     return bad
@@ -185,6 +193,18 @@ class C08(Check):
             for k, x in ((2, 1), (2, 2), (3, 2)):
                 if tier == 'quick' and (k == 3 or (wrapper == 'coba' and x == 2)): continue
                 out.append({'wrapper': wrapper, 'n': n, 'm': m, 'items': k, 'faults': [x], 'consumer': 'all', 'fan': 'raise-mid'})
+        # the SAME Multiprocessor object applied to a second stream (after a clean / a failed first call)
+        for wrapper, n, m in (('mp', 2, 0), ('mp', 2, 1), ('mp', 1, 1), ('coba', 2, 1)):
+            if tier == 'quick' and wrapper == 'coba': continue
+            for ffaults in ([], [1], [2]):
+                for k2, f2 in ((2, []), (3, []), (2, [11])):
+                    if tier == 'quick' and (k2 == 3 and (n, m) != (2, 1) or f2 and ffaults != [1]): continue
+                    out.append({'wrapper': wrapper, 'n': n, 'm': m, 'items': k2, 'faults': f2, 'consumer': 'all', 'offset': 10, 'first': {'items': 2, 'faults': ffaults}})
+        # a stream that re-uses one buffer object for all its items
+        for wrapper, n, m in (('mp', 2, 0), ('mp', 3, 1), ('mp', 1, 1), ('mp', 1, 0), ('coba', 2, 0)):
+            for k in (2, 3, 4):
+                if tier == 'quick' and (k == 4 or (wrapper == 'coba' and k == 3)): continue
+                out.append({'wrapper': wrapper, 'n': n, 'm': m, 'items': k, 'faults': [], 'consumer': 'all', 'itemkind': 'aliased'})
         # item VALUES that are falsy / None (a stream may carry them): every rotation of [None, 0, '', ()] as the first 1..4 items
         for wrapper, n, m in (('mp', 2, 0), ('mp', 1, 1), ('coba', 2, 0), ('coba', 1, 1), ('coba', 1, 0), ('mp', 1, 0)):
             for rot in range(4):
@@ -302,7 +322,7 @@ class C08(Check):
     def post(self, acc, tier):
         # 'huge' exceptions are not replayed on the real OS in the registered runs: the real run hangs (listed finding), which would cost a
         # 60 s timeout per run; the pipe-capacity model of the simulated layer was confirmed against real spawn once (vf/lib/realmp.py)
-        confs = [c for c in self.cases(tier) if c['wrapper'] == 'mp' and not (c['n'] == 1 and c['m'] == 0) and c['consumer'] == 'all' and c.get('exc') != 'huge' and 'itemkind' not in c]
+        confs = [c for c in self.cases(tier) if c['wrapper'] == 'mp' and not (c['n'] == 1 and c['m'] == 0) and c['consumer'] == 'all' and c.get('exc') != 'huge' and 'itemkind' not in c and 'first' not in c]
         pick = confs if tier == 'thorough' else [c for c in confs if c['items'] == 2 and c['n'] == 2 and len(c['faults']) <= 1 and 'exc' not in c][:6] + [c for c in confs if c.get('exc') in ('EOFError', 'ValueError', 'cannot-unpickle') and c['n'] == 2 and c['faults'] == [1]] + [c for c in confs if c.get('fan') in ('two', 'none1') and (c['n'], c['m'], c['items']) == (2, 0, 2)] + [c for c in confs if c['items'] > 4 and c['faults'] == [1]]
         n_ok = self.real_runs(pick, acc)
         acc.traces += n_ok
